@@ -5,6 +5,7 @@ import (
 	"reflect"
 	"strconv"
 	"strings"
+	"time"
 	"unsafe"
 
 	"github.com/welllog/golib/ringz"
@@ -18,6 +19,9 @@ func isSync(c core.Case) bool {
 }
 
 func genBoth(r *core.Rand, tier string) core.Case {
+	if r.Chance(4) {
+		return genCap(r, tier)
+	}
 	if r.Chance(45) {
 		return genSync(r, tier)
 	}
@@ -37,6 +41,13 @@ func corpusBoth() []core.Case {
 		core.Case{Lines: []string{"@ C10 sync 2", "warp 4294967295", "push 1", "pop", "push 2", "push 3", "push 4", "len", "pop", "pop", "pop", "warp 1"}},
 		core.Case{Lines: []string{"@ C10 sync 8", "warp 8589934590", "dump", "push 1", "push 2", "push 3", "dump", "pop", "len", "cap"}},
 		core.Case{Lines: []string{"@ C10 sync 5", "push 1", "pop", "warp 7", "dump"}},
+		// capacity rounding beyond 2^16 (a roundupPowOfTwo that smears only 16 bits is wrong from 2^17+1 on)
+		core.Case{Lines: []string{"@ C10 synccap", "cap 1", "cap 2", "cap 3", "cap 65537", "cap 131072", "cap 131073", "cap 196608", "cap 1048577", "cap 3145728", "cap 4194303", "cap 0", "cap 2147483649"}},
+		bigRingCase(1<<17+1, ""),
+		bigRingCase(3<<17, "4294967294"),
+		// PushWait / PopWait in the three regimes of maxWait, across the 2^32 boundary
+		core.Case{Lines: []string{"@ C10 sync 2", "warp 4294967295", "popw 0", "popw 2", "popwn", "pushw 1 0", "pushwn 2", "pushw 3 0", "pushw 3 2", "pushwn 3", "len", "popwn", "popw 0", "popw 1", "popw 1", "isempty", "dump"}},
+		core.Case{Lines: []string{"@ C10 sync 1", "pushw 1 1", "pushw 2 1", "pushw 3 1", "popw 5", "pop", "pop"}},
 	)
 }
 
@@ -73,6 +84,21 @@ func genSync(r *core.Rand, tier string) core.Case {
 	}
 	n := r.Range(3, 60)
 	next := 1
+	waits := r.Chance(12) // cases that use PushWait/PopWait instead of some Push/Pop calls
+	slow := 0            // waits with a positive maxWait cost >= 10 ms each when they fail: at most 2 per case
+	wait := func() string {
+		switch r.Pick(55, 25, 20) {
+		case 0:
+			return "0"
+		case 1:
+			if slow < 2 {
+				slow++
+				return strconv.Itoa(r.Range(1, 3))
+			}
+			return "0"
+		}
+		return "-1"
+	}
 	// phases make the ring fill up and drain (a uniform mix hovers around empty)
 	pushW, popW := 40, 30
 	for i := 0; i < n; i++ {
@@ -85,10 +111,26 @@ func genSync(r *core.Rand, tier string) core.Case {
 		}
 		switch r.Pick(pushW, popW, 8, 3, 6, 6, 5, 1) {
 		case 0:
-			lines = append(lines, fmt.Sprintf("push %d", next))
+			if w := wait(); waits && r.Chance(60) {
+				if w == "-1" {
+					lines = append(lines, fmt.Sprintf("pushwn %d", next))
+				} else {
+					lines = append(lines, fmt.Sprintf("pushw %d %s", next, w))
+				}
+			} else {
+				lines = append(lines, fmt.Sprintf("push %d", next))
+			}
 			next++
 		case 1:
-			lines = append(lines, "pop")
+			if w := wait(); waits && r.Chance(60) {
+				if w == "-1" {
+					lines = append(lines, "popwn")
+				} else {
+					lines = append(lines, "popw "+w)
+				}
+			} else {
+				lines = append(lines, "pop")
+			}
 		case 2:
 			lines = append(lines, "len")
 		case 3:
@@ -107,6 +149,9 @@ func genSync(r *core.Rand, tier string) core.Case {
 }
 
 func implBoth(c core.Case) []string {
+	if isCap(c) {
+		return implCap(c)
+	}
 	if isSync(c) {
 		return implSync(c)
 	}
@@ -114,6 +159,9 @@ func implBoth(c core.Case) []string {
 }
 
 func checkBoth(c core.Case, out []string) *core.Failure {
+	if isCap(c) {
+		return checkCap(c, out)
+	}
 	if isSync(c) {
 		return checkSync(c, out)
 	}
@@ -121,6 +169,9 @@ func checkBoth(c core.Case, out []string) *core.Failure {
 }
 
 func classifyBoth(c core.Case, out []string) []string {
+	if isCap(c) {
+		return classifyCap(c, out)
+	}
 	if isSync(c) {
 		return classifySync(c, out)
 	}
@@ -194,8 +245,45 @@ func (f syncFields) dump() string {
 
 func tooLargeToRun(n int) bool { return n > 1<<20 && n <= 1<<31 }
 
-func implSync(c core.Case) []string {
+// callOrRelease runs a PushWait(-1)/PopWait(-1) that must return at its first attempt on
+// its own goroutine. If it has not returned after 2 s (only possible when the code under
+// test is wrong about full/empty) the spinner is released from this goroutine (release
+// makes room / offers an element) so that it does not spin for the rest of the run; the
+// answer is then "hang" and the case is dead. A panic in the call is re-raised here.
+func callOrRelease(call func(), release func()) (returned bool) {
+	done := make(chan any, 1)
+	go func() {
+		defer func() { done <- recover() }()
+		call()
+	}()
+	select {
+	case p := <-done:
+		if p != nil {
+			panic(p)
+		}
+		return true
+	case <-time.After(2 * time.Second):
+	}
+	for i := 0; i < 200; i++ {
+		release()
+		select {
+		case <-done:
+			return false
+		case <-time.After(5 * time.Millisecond):
+		}
+	}
+	return false
+}
+
+func implSync(c core.Case) []string { return implSyncMax(c, 1<<20) }
+
+// implSyncMax: requests in (max, 2^31] are not executed.
+func implSyncMax(c core.Case, max int) []string {
+	tooLargeToRun := func(n int) bool { return n > max && n <= 1<<31 }
 	var r ringz.SyncRing[int]
+	held := 0 // successful pushes minus successful pops, from the implementation's own answers
+	capNow := func() int { return r.Cap() }
+	hung := false
 	return core.RunOps(c,
 		func(hdr []string) string {
 			if len(hdr) != 2 {
@@ -214,13 +302,72 @@ func implSync(c core.Case) []string {
 					return "bad-op"
 				}
 			}
+			if hung {
+				return "dead"
+			}
 			switch {
 			case len(t) == 2 && t[0] == "push":
 				v, err := strconv.Atoi(t[1])
 				if err != nil {
 					return "bad-op"
 				}
-				return strconv.FormatBool(r.Push(v))
+				ok := r.Push(v)
+				if ok {
+					held++
+				}
+				return strconv.FormatBool(ok)
+			case len(t) == 3 && t[0] == "pushw":
+				v, err := strconv.Atoi(t[1])
+				ms, err2 := strconv.Atoi(t[2])
+				if err != nil || err2 != nil || ms < 0 {
+					return "bad-op"
+				}
+				ok := r.PushWait(v, time.Duration(ms)*time.Millisecond)
+				if ok {
+					held++
+				}
+				return strconv.FormatBool(ok)
+			case len(t) == 2 && t[0] == "popw":
+				ms, err := strconv.Atoi(t[1])
+				if err != nil || ms < 0 {
+					return "bad-op"
+				}
+				v, ok := r.PopWait(time.Duration(ms) * time.Millisecond)
+				if ok {
+					held--
+				}
+				return fmt.Sprintf("%d %v", v, ok)
+			case len(t) == 2 && t[0] == "pushwn":
+				v, err := strconv.Atoi(t[1])
+				if err != nil {
+					return "bad-op"
+				}
+				if held >= capNow() {
+					return "would-block" // PushWait(-1) on a full ring never returns with one goroutine
+				}
+				var ok bool
+				if !callOrRelease(func() { ok = r.PushWait(v, -1) }, func() { r.Pop() }) {
+					hung = true
+					return "hang"
+				}
+				if ok {
+					held++
+				}
+				return strconv.FormatBool(ok)
+			case len(t) == 1 && t[0] == "popwn":
+				if held <= 0 {
+					return "would-block"
+				}
+				var v int
+				var ok bool
+				if !callOrRelease(func() { v, ok = r.PopWait(-1) }, func() { r.Push(0) }) {
+					hung = true
+					return "hang"
+				}
+				if ok {
+					held--
+				}
+				return fmt.Sprintf("%d %v", v, ok)
 			case len(t) == 2 && t[0] == "warp":
 				k, err := strconv.ParseUint(t[1], 10, 64)
 				if err != nil {
@@ -243,6 +390,9 @@ func implSync(c core.Case) []string {
 				return f.dump()
 			case len(t) == 1 && t[0] == "pop":
 				v, ok := r.Pop()
+				if ok {
+					held--
+				}
 				return fmt.Sprintf("%d %v", v, ok)
 			case len(t) == 1 && t[0] == "len":
 				return strconv.Itoa(r.Len())
@@ -259,7 +409,10 @@ func implSync(c core.Case) []string {
 
 // checkSync: the property's own predicate against a plain slice queue whose capacity
 // is the least power of two >= max(2, requested); warp must not be observable.
-func checkSync(c core.Case, out []string) *core.Failure {
+func checkSync(c core.Case, out []string) *core.Failure { return checkSyncMax(c, out, 1<<20) }
+
+func checkSyncMax(c core.Case, out []string, max int) *core.Failure {
+	tooLargeToRun := func(n int) bool { return n > max && n <= 1<<31 }
 	hdr := core.Toks(c.Lines[0])
 	if len(hdr) != 4 {
 		return nil
@@ -298,22 +451,39 @@ func checkSync(c core.Case, out []string) *core.Failure {
 	for i := 1; i < len(c.Lines); i++ {
 		t := core.Toks(c.Lines[i])
 		arg := 0
-		if len(t) == 2 {
+		if len(t) >= 2 {
 			arg, _ = strconv.Atoi(t[1])
 		}
 		var want string
 		before := append([]int{}, q...)
 		switch t[0] {
-		case "push":
+		case "push", "pushw": // PushWait with maxWait >= 0 must answer as Push
+			if len(t) < 2 {
+				continue
+			}
 			if len(q) < capacity {
 				q = append(q, arg)
 				want = "true"
 			} else {
 				want = "false"
 			}
-		case "pop":
+		case "pushwn": // PushWait(-1): pushes when there is room, otherwise cannot return
+			if len(q) < capacity {
+				q = append(q, arg)
+				want = "true"
+			} else {
+				want = "would-block"
+			}
+		case "pop", "popw":
 			if len(q) == 0 {
 				want = "0 false"
+			} else {
+				want = fmt.Sprintf("%d true", q[0])
+				q = q[1:]
+			}
+		case "popwn":
+			if len(q) == 0 {
+				want = "would-block"
 			} else {
 				want = fmt.Sprintf("%d true", q[0])
 				q = q[1:]
@@ -372,6 +542,13 @@ func classifySync(c core.Case, out []string) []string {
 	for i, l := range c.Lines[1:] {
 		t := core.Toks(l)
 		o := out[i+1]
+		if strings.HasPrefix(t[0], "pop") && strings.HasSuffix(o, " true") {
+			succ++
+			if warped && (k%(1<<32))+succ == 1<<32 && !crossed {
+				crossed = true
+				ls = append(ls, "head-wraps-2^32-during-ops")
+			}
+		}
 		switch {
 		case t[0] == "warp" && o == "ok":
 			k, _ = strconv.ParseUint(t[1], 10, 64)
@@ -388,16 +565,26 @@ func classifySync(c core.Case, out []string) []string {
 			}
 		case t[0] == "warp" && o == "not-fresh":
 			ls = append(ls, "warp-not-fresh")
+		case t[0] == "pushw" || t[0] == "popw":
+			kind := "zero"
+			if t[len(t)-1] != "0" {
+				kind = "positive"
+			}
+			res := "ok"
+			if strings.HasSuffix(o, "false") {
+				res = "timeout"
+			}
+			ls = append(ls, "sync-"+t[0]+"-"+kind+"-"+res)
+		case t[0] == "pushwn" || t[0] == "popwn":
+			if o == "would-block" {
+				ls = append(ls, "sync-"+t[0]+"-would-block")
+			} else {
+				ls = append(ls, "sync-"+t[0]+"-ok")
+			}
 		case t[0] == "push" && o == "false":
 			ls = append(ls, "sync-push-full")
 		case t[0] == "pop" && o == "0 false":
 			ls = append(ls, "sync-pop-empty")
-		case t[0] == "pop" && strings.HasSuffix(o, " true"):
-			succ++
-			if warped && (k%(1<<32))+succ == 1<<32 && !crossed {
-				crossed = true
-				ls = append(ls, "head-wraps-2^32-during-ops")
-			}
 		case o == "panic":
 			ls = append(ls, "sync-panic")
 		}
